@@ -11,7 +11,9 @@ from . import types as T
 
 BAD_NAMES = ["_a_", "uint8", "Uint8", "TRUE", "int", "float", "void", "q1_1", "uq8_8", "com1", "COM9", "lpt0", "self", "Optional",
              "nul", "bool", "Struct", "Aux", "Con", "type", "Enum", "prn", "super", "Const", "truncated", "Saturated", "float32",
-             "void3", "template", "And", "or", "NOT", "auto", "aligned", "false"]
+             "void3", "template", "And", "or", "NOT", "auto", "aligned", "false",
+             # characters outside [A-Za-z0-9_] (non-ASCII letters and digits are "word" characters for Unicode-aware regexes)
+             "Caf\u00e9", "Gr\u00f6\u00dfe", "Level\u0663", "donn\u00e9es", "\u0421yr", "na\u00efve", "x\u00b2", "a b", "a.b"[:1] + "\u00b7b"]
 NEAR_NAMES = ["a_", "_a", "A1", "floatx", "voidx", "com10", "null", "saturatedx", "uint", "int_", "q1", "lpt", "selfie", "types",
               "constant", "boolean", "u8", "_", "x_y"]
 # NB: "uint" and "_" : "uint" matches u?int\d*$ -> reserved. Keep the lists honest: the verdict is computed, not assumed.
